@@ -56,6 +56,11 @@ var checks = map[string][]HarnessSpec{
 		{Name: "verifC13Padding", Pkg: "./dns", Labels: []string{"padded"}},
 		{Name: "verifC13ResponseCode", Pkg: "./dns", Labels: []string{"rcode"}},
 	},
+	"C14": {
+		{Name: "verifC14Names", Pkg: ".", Labels: []string{"names"}},
+		{Name: "verifC14Literals", Pkg: ".", Labels: []string{"literals"}},
+		{Name: "verifC14Zone", Pkg: ".", Labels: []string{"resolved", "error"}},
+	},
 	"C15": {
 		{Name: "verifC15Targets", Pkg: ".", Labels: []string{"checked"}},
 	},
